@@ -19,6 +19,9 @@
 //! [`Engine`]: crate::engine
 //!
 
+#[cfg(verif_shuttle)]
+use crate::verif::LazyLock;
+#[cfg(not(verif_shuttle))]
 use std::sync::LazyLock;
 
 use crate::engine::{
